@@ -97,11 +97,29 @@ def main(tier):
             kind = 'report-incomplete' if 'report' in v else ('race' if 'unsynchronised' in v else ('leak' if 'blocked' in v else 'other'))
             rep.fail(f"analysis of {r['sig']} with options [{r['opts']}]: {v[:200]}", ['part:bcd', 'kind:' + kind] + ['opt:' + o for o in r['opts'].split('+')],
                      dict(part='b-d', subject=r['sig'], options=r['opts'], violation=v, schedule=r.get('schedule'), races=r.get('races')))
-    execs += rexecs
-    trans += rtrans
-    states += rstates
+    # part (e): caller-supplied ShouldBuildSummary callback (shape of cmd/argot/cli's counting closures) under all schedules
+    def cshard(i):
+        out = f'{V}/build/c20-cb-{i}.jsonl'
+        r = subprocess.run([f'{vlib.BIN}/vps', 'callbacks', '-in', subj, '-out', out, '-shard', f'{i}/{nsh}', '-bound', '1', '-maxexecs', str(REP_EXECS[tier])],
+                           stdout=subprocess.DEVNULL, stderr=subprocess.PIPE, text=True, env=vlib.GOENV, timeout=14400)
+        recs = [json.loads(l) for l in open(out)] if os.path.exists(out) else []
+        return recs, r.returncode, r.stderr[-1500:]
+    crecs = []
+    with cf.ThreadPoolExecutor(nsh) as ex:
+        for rs, rc2, err in ex.map(cshard, range(nsh)):
+            crecs += rs
+            if rc2 not in (0, 1) or 'DONE' not in err[-100:]:
+                rep.fail('callbacks worker died', ['death', 'part:e'], dict(stderr=err))
+    for r in crecs:
+        for v in r.get('violations') or []:
+            rep.fail(f"summary pass of {r['sig']} with {r['opts']}: {v[:200]}", ['part:e', 'kind:callback'],
+                     dict(part='e', subject=r['sig'], workers=r['opts'], violation=v, schedule=r.get('schedule'), races=r.get('races')))
+    cexecs = sum(r['execs'] for r in crecs)
+    execs += rexecs + cexecs
+    trans += rtrans + sum(r['transitions'] for r in crecs)
+    states += rstates + sum(r['states'] for r in crecs)
     rw = json.load(open(f"{V}/build/rewrite-{os.environ.get('VERIF_BINDIR', 'bin')}.json"))
-    rep.cov = dict(report_option_runs=len(rrecs), report_executions=rexecs, report_runs_hitting_cap=rcapped,
+    rep.cov = dict(callback_runs=len(crecs), callback_executions=cexecs, report_option_runs=len(rrecs), report_executions=rexecs, report_runs_hitting_cap=rcapped,
                    map_write_probes=sum(v.get('MapWrites', 0) for v in rw.get('typed', {}).values()),states=max(states, 1), transitions=max(trans, 1), traces_validated_against_impl=execs,
                    evaluations=execs, distinct_nontrivial=sum(1 for c in results if c['Execs'] > 1),
                    rule='evaluation = one complete controlled execution of the real MapParallel; states = distinct scheduling-point '
@@ -110,7 +128,7 @@ def main(tier):
                    cases=[dict(len=c['Len'], workers=c['N'], bound=c['Bound'], executions=c['Execs'], unbounded_exhaustive=c['Exhaustive']) for c in results],
                    capped_cases=capped, rewritten_files=sorted(rw['replace']), rewrite_stats=rw['stats'],
                    samples=[dict(len=c['Len'], workers=c['N'], bound=c['Bound'], executions=c['Execs']) for c in results[:4]],
-                   parts_implemented=['a: MapParallel', 'b-d: whole taint analysis (state initialisation goroutines, summary pass, report writer) x 16 option sets with map race probes'])
+                   parts_implemented=['a: MapParallel', 'b-d: whole taint analysis (state initialisation goroutines, summary pass, report writer) x 16 option sets with map race probes', 'e: caller-supplied ShouldBuildSummary callback with a race-probed counter (shape of the cli summarize closures) x 1-3 workers'])
     rep.assumptions = ['sequentially consistent scheduler (no weak-memory effects)', 'preemption bound as listed per case; cases that hit the execution cap are listed in capped_cases',
                        'race probes cover map reads (range, through the order seam) and map writes (m[k]=v, delete); struct fields and slice elements are not probed']
     return rep.finish(exhaustive=not capped and rcapped == 0)
